@@ -210,28 +210,45 @@ theorem uniqueSortedIPs_fix (l : List Ip) : ∀ y ∈ uniqueSortedIPs l, to16 y 
   obtain ⟨x, _, rfl⟩ := List.mem_map.mp this
   exact to16_idem x
 
-structure SansOk (ids : List Identifier) (c : Csr) (l : List San) : Prop where
+/-- no Wire identifier: the identifier loop of `sans` yields no URI -/
+theorem wireUris_not_wire : ∀ (ids : List Identifier) (tmp : List Str),
+    isWire ids = false → wireUris ids = some tmp → tmp = [] := by
+  intro ids
+  induction ids with
+  | nil => intro tmp _ h; simp [wireUris] at h; exact h
+  | cons id rest ih =>
+    intro tmp hw h
+    simp [isWire] at hw
+    have hr : isWire rest = false := by simp [isWire]; exact hw.2
+    unfold wireUris at h
+    cases ht : id.typ <;> simp [ht] at h hw
+    · exact ih tmp hr h
+    · exact ih tmp hr h
+    · exact ih tmp hr h
+
+/-- What a successful `sans` means; `tmp` = the URIs of the order's Wire identifiers in order. -/
+structure SansOk (ids : List Identifier) (c : Csr) (tmp : List Str) (l : List San) : Prop where
   noEmail : c.emails = 0
-  noUri : c.uris = 0
-  noWire : isWire ids = false
+  uriCount : c.uris = tmp.length
+  uris : sortU c.uriStrs = sortU tmp
   dns : c.dns = uniqueSortedLowerNames (valuesOf .dns ids)
   ips : c.ips.map to16 = uniqueSortedIPs (ipsOf ids)
   csrIpsNonNil : ∀ x ∈ c.ips, x ≠ []
   orderIpsNonNil : ∀ y ∈ uniqueSortedIPs (ipsOf ids), y ≠ []
-  out : l = c.dns.map San.dns ++ c.ips.map (fun x => San.ip (to16 x))
+  out : l = c.dns.map San.dns ++ c.ips.map (fun x => San.ip (to16 x)) ++ (sortU tmp).map San.uri ++
+            List.replicate (c.uris - (sortU tmp).length) San.empty
 
 theorem sans_ok (ids : List Identifier) (c : Csr) (l : List San)
-    (h : sans ids c = .val (.ok l)) : SansOk ids c l := by
+    (h : sans ids c = .val (.ok l)) : ∃ tmp, wireUris ids = some tmp ∧ SansOk ids c tmp l := by
   unfold sans at h
   by_cases he : c.emails > 0
   · simp [he] at h
   rw [if_neg he] at h
-  by_cases hw : isWire ids = true
-  · simp [hw] at h
-  rw [if_neg hw] at h
-  split at h
-  · cases h
-  simp only at h
+  cases hwu : wireUris ids with
+  | none => simp [hwu] at h
+  | some tmp =>
+  simp only [hwu] at h
+  refine ⟨tmp, rfl, ?_⟩
   split at h
   · cases h
   rename_i hlen
@@ -249,13 +266,29 @@ theorem sans_ok (ids : List Identifier) (c : Csr) (l : List San)
   split at h
   · cases h
   rename_i hu
-  simp at h hu hlen hlen2
-  obtain ⟨_, hacc, hdj⟩ := posLoop_ok _ _ _ _ _ _ _ _ _ _ hd
-  obtain ⟨_, hacc2, hij⟩ := posLoop_ok _ _ _ _ _ _ _ _ _ _ hi
+  split at h
+  · cases h
+  rename_i hlen3
+  split at h
+  · cases h
+  · cases h
+  rename_i index3 acc3 hui
+  simp at h hu hlen hlen2 hlen3
+  obtain ⟨hx1, hacc, hdj⟩ := posLoop_ok _ _ _ _ _ _ _ _ _ _ hd
+  obtain ⟨hx2, hacc2, hij⟩ := posLoop_ok _ _ _ _ _ _ _ _ _ _ hi
+  obtain ⟨hx3, hacc3, huj⟩ := posLoop_ok _ _ _ _ _ _ _ _ _ _ hui
   have hdns : c.dns = uniqueSortedLowerNames (valuesOf .dns ids) := by
     apply List.ext_getElem hlen
     intro j h1 h2
     obtain ⟨y, hy, e⟩ := hdj j h1
+    simp at hy e
+    rw [List.getElem?_eq_getElem h2] at hy
+    simp at hy
+    rw [e, hy]
+  have huris : sortU c.uriStrs = sortU tmp := by
+    apply List.ext_getElem hlen3
+    intro j h1 h2
+    obtain ⟨y, hy, e⟩ := huj j h1
     simp at hy e
     rw [List.getElem?_eq_getElem h2] at hy
     simp at hy
@@ -273,7 +306,7 @@ theorem sans_ok (ids : List Identifier) (c : Csr) (l : List San)
     simp [ipsAreEqual] at e
     simp
     rw [e.2, hfix _ (List.getElem_mem h2)]
-  refine ⟨by omega, hu, by simpa using hw, hdns, hips, ?_, ?_, ?_⟩
+  refine ⟨by omega, hu, huris, hdns, hips, ?_, ?_, ?_⟩
   · intro x hx
     obtain ⟨j, hj, rfl⟩ := List.getElem_of_mem hx
     obtain ⟨y, _, e⟩ := hij j hj
@@ -288,7 +321,10 @@ theorem sans_ok (ids : List Identifier) (c : Csr) (l : List San)
     subst hy'
     simp [ipsAreEqual] at e
     exact e.1.2
-  · subst h; rw [hacc2, hacc]; simp
+  · subst h
+    rw [hacc3, hacc2, hacc, huris, hx3, hx2, hx1]
+    simp [Csr.uris, huris]
+    omega
 
 theorem sans_total (ids : List Identifier) (c : Csr) : sans ids c ≠ .crash := by
   unfold sans
@@ -296,8 +332,7 @@ theorem sans_total (ids : List Identifier) (c : Csr) : sans ids c ≠ .crash := 
   · simp
   split
   · simp
-  split
-  · simp
+  rename_i tmp hwu
   simp only
   split
   · simp
@@ -319,8 +354,35 @@ theorem sans_total (ids : List Identifier) (c : Csr) : sans ids c ≠ .crash := 
   split
   · rename_i hc; exact absurd hc n2
   · simp
-  split <;> simp
-
+  rename_i index2 acc2 hi
+  obtain ⟨hidx2, _, _⟩ := posLoop_ok _ _ _ _ _ _ _ _ _ _ hi
+  split
+  · simp
+  split
+  · simp
+  rename_i hlen3
+  simp at hlen3
+  -- the de-duplicated CSR list is no longer than the CSR list
+  have hle : (sortU c.uriStrs).length ≤ c.uris := by
+    have : ∀ (l : List (List Nat)), (sortU l).length ≤ l.length := by
+      intro l
+      induction l with
+      | nil => simp [sortU]
+      | cons x xs ih =>
+        have hi : ∀ (y : List Nat) (m : List (List Nat)), (insertU y m).length ≤ m.length + 1 := by
+          intro y m
+          induction m with
+          | nil => simp [insertU]
+          | cons z zs ihz => unfold insertU; split <;> (try split) <;> simp <;> omega
+        have : sortU (x :: xs) = insertU x (sortU xs) := rfl
+        rw [this]; have := hi x (sortU xs); simp; omega
+    exact this c.uriStrs
+  have n3 := posLoop_nocrash (fun a b => a == b) San.uri (sortU tmp)
+    (c.dns.length + c.ips.length + c.uris) (sortU c.uriStrs) 0 index2 acc2 (by omega) (by omega)
+  split
+  · rename_i hc; exact absurd hc n3
+  · simp
+  · simp
 
 /-! finalize -/
 
@@ -345,12 +407,34 @@ theorem usi_mem (ips : List Ip) (x : Ip) :
 def fpGate (azFps : List Str) (csrFp : Option Str) : Prop :=
   firstFingerprint azFps ≠ [] → csrFp = some (firstFingerprint azFps)
 
+theorem finOfSans_accept {cn cn' : Str} {r : M SansOut} {a : Bool} {l : List San}
+    (h : finOfSans cn r = .val (.accept a cn' l)) : a = false ∧ cn' = cn ∧ r = .val (.ok l) := by
+  cases r with
+  | crash => simp [finOfSans] at h
+  | val v => cases v <;> simp [finOfSans] at h; exact ⟨h.1, h.2.1.symm, by rw [h.2.2]⟩
+
+theorem finOfSansAttested_accept {cn cn' pid : Str} {r : M SansOut} {a : Bool} {l : List San}
+    (h : finOfSansAttested cn pid r = .val (.accept a cn' l)) :
+    a = true ∧ cn' = cn ∧ l = [San.pid pid] ∧ ∃ l', r = .val (.ok l') := by
+  cases r with
+  | crash => simp [finOfSansAttested] at h
+  | val v =>
+    cases v <;> simp [finOfSansAttested] at h
+    rename_i l'
+    exact ⟨h.1, h.2.1.symm, h.2.2.symm, l', rfl⟩
+
+/-- What any acceptance means (both branches): the fingerprint gate, no Wire identifier, the
+    subject's common name is the CSR's; the attested template iff the order has a non-empty first
+    permanent identifier, which is then the only name and equals a non-empty common name; and in
+    BOTH branches the name comparison `sans` succeeded on the canonical CSR. -/
 theorem accept_inv (ids : List Identifier) (azFps : List Str) (csrFp : Option Str) (c : Csr)
     (a : Bool) (cn : Str) (l : List San)
     (h : finalizeNames ids azFps csrFp c = .val (.accept a cn l)) :
     fpGate azFps csrFp ∧ isWire ids = false ∧ cn = c.cn ∧
-    ((a = true ∧ ∃ p, firstPid ids = some p ∧ p.value ≠ [] ∧ l = [San.pid p.value] ∧ (c.cn = [] ∨ c.cn = p.value)) ∨
-     (a = false ∧ (∀ p, firstPid ids = some p → p.value = [] ∧ c.cn = []) ∧ sans ids (canonicalize c) = .val (.ok l))) := by
+    (c.cn = [] ∨ c.cn = pidOf ids ∨ firstPid ids = none) ∧
+    ((a = true ∧ pidOf ids ≠ [] ∧ firstFingerprint azFps ≠ [] ∧ l = [San.pid (pidOf ids)] ∧
+        ∃ l', sans ids (canonFor (pidOf ids) c) = .val (.ok l')) ∨
+     (a = false ∧ pidOf ids = [] ∧ sans ids (canonFor (pidOf ids) c) = .val (.ok l))) := by
   unfold finalizeNames at h
   simp only at h
   split at h
@@ -369,107 +453,112 @@ theorem accept_inv (ids : List Identifier) (azFps : List Str) (csrFp : Option St
       · exact absurd ⟨hne, by rw [hc]; exact e⟩ g2
   split at h
   · cases h
+  rename_i hcn
+  have hcn' : c.cn = [] ∨ c.cn = pidOf ids ∨ firstPid ids = none := by
+    by_cases e1 : c.cn = []
+    · exact .inl e1
+    by_cases e2 : c.cn = pidOf ids
+    · exact .inr (.inl e2)
+    right; right
+    cases hf : firstPid ids with
+    | none => rfl
+    | some p => exact absurd ⟨by simp [hf], e1, e2⟩ hcn
+  split at h
+  · -- a Wire order is never answered with `accept`
+    exfalso
+    cases hws : wireSubject ids (canonFor (pidOf ids) c) with
+    | error e => cases e <;> simp [hws] at h
+    | ok p =>
+      obtain ⟨cn', org⟩ := p
+      simp only [hws] at h
+      cases hs : sans ids (canonFor (pidOf ids) c) with
+      | crash => simp [hs, finOfSansWire] at h
+      | val v => cases v <;> simp [hs, finOfSansWire] at h
   rename_i hw
-  have hcn : (canonicalize c).cn = c.cn := by simp [canonicalize]
-  rw [hcn] at h
-  refine ⟨hg, by simpa using hw, ?_⟩
-  have hsans : finOfSans c.cn (sans ids (canonicalize c)) = .val (.accept a cn l) →
-      a = false ∧ cn = c.cn ∧ sans ids (canonicalize c) = .val (.ok l) := by
-    intro h
-    cases hs : sans ids (canonicalize c) with
-    | crash => simp [hs, finOfSans] at h
-    | val v =>
-      cases v <;> simp [hs, finOfSans] at h
-      exact ⟨h.1, h.2.1.symm, by rw [h.2.2]⟩
-  cases hp : firstPid ids with
-  | none =>
-    simp [hp] at h
-    obtain ⟨h1, h2, h3⟩ := hsans h
-    exact ⟨h2, .inr ⟨h1, by simp, h3⟩⟩
-  | some p =>
-    simp [hp] at h
+  split at h
+  · rename_i hv
     split at h
     · cases h
-    rename_i hcn2
-    split at h
-    · rename_i hv
-      obtain ⟨h1, h2, h3⟩ := hsans h
-      refine ⟨h2, .inr ⟨h1, ?_, h3⟩⟩
-      intro q hq
-      cases hq
-      refine ⟨hv, ?_⟩
-      by_cases e : c.cn = []
-      · exact e
-      · exact absurd ⟨e, by rw [hv]; exact e⟩ hcn2
-    · rename_i hv
-      simp at h
-      refine ⟨h.2.1.symm, .inl ⟨h.1, p, rfl, hv, h.2.2.symm, ?_⟩⟩
-      by_cases e : c.cn = []
-      · exact .inl e
-      · exact .inr (by
-          by_cases e2 : c.cn = p.value
-          · exact e2
-          · exact absurd ⟨e, e2⟩ hcn2)
+    rename_i hfp
+    obtain ⟨h1, h2, h3, h4⟩ := finOfSansAttested_accept h
+    exact ⟨hg, by simpa using hw, h2, hcn', .inl ⟨h1, hv, hfp, h3, h4⟩⟩
+  · rename_i hv
+    obtain ⟨h1, h2, h3⟩ := finOfSans_accept h
+    exact ⟨hg, by simpa using hw, h2, hcn', .inr ⟨h1, by simpa using hv, h3⟩⟩
 
+theorem canonB_dns_mem (b : Bool) (c : Csr) (x : Str) :
+    x ∈ (canonB b c).dns ↔
+      x ≠ [] ∧ ((∃ n ∈ c.dns, Str.lower n = x) ∨
+        (b = false ∧ c.cn ≠ [] ∧ c.cnIp = [] ∧ Str.lower c.cn = x)) := by
+  cases b
+  · simp only [canonB, canonicalize]
+    rw [usl_mem]
+    by_cases h : c.cn ≠ [] ∧ c.cnIp = []
+    · simp only [Bool.false_eq_true, if_false]
+      rw [if_pos h]
+      simp only [List.mem_append, List.mem_singleton]
+      constructor
+      · rintro ⟨hx, n, hn | rfl, e⟩
+        · exact ⟨hx, .inl ⟨n, hn, e⟩⟩
+        · exact ⟨hx, .inr ⟨trivial, h.1, h.2, e⟩⟩
+      · rintro ⟨hx, ⟨n, hn, e⟩ | ⟨_, _, _, e⟩⟩
+        · exact ⟨hx, n, .inl hn, e⟩
+        · exact ⟨hx, c.cn, .inr rfl, e⟩
+    · simp only [Bool.false_eq_true, if_false]
+      rw [if_neg h]
+      constructor
+      · rintro ⟨hx, n, hn, e⟩; exact ⟨hx, .inl ⟨n, hn, e⟩⟩
+      · rintro ⟨hx, ⟨n, hn, e⟩ | ⟨_, a, b, _⟩⟩
+        · exact ⟨hx, n, hn, e⟩
+        · exact absurd ⟨a, b⟩ h
+  · simp only [canonB, canonicalize, if_true]
+    rw [usl_mem]
+    simp
 
-theorem canon_dns_mem (c : Csr) (x : Str) :
-    x ∈ (canonicalize c).dns ↔
-      x ≠ [] ∧ ((∃ n ∈ c.dns, Str.lower n = x) ∨ (c.cn ≠ [] ∧ c.cnIp = [] ∧ Str.lower c.cn = x)) := by
-  simp only [canonicalize]
-  rw [usl_mem]
-  by_cases h : c.cn ≠ [] ∧ c.cnIp = []
-  · rw [if_pos h]
-    simp only [List.mem_append, List.mem_singleton]
-    constructor
-    · rintro ⟨hx, n, hn | rfl, e⟩
-      · exact ⟨hx, .inl ⟨n, hn, e⟩⟩
-      · exact ⟨hx, .inr ⟨h.1, h.2, e⟩⟩
-    · rintro ⟨hx, ⟨n, hn, e⟩ | ⟨_, _, e⟩⟩
-      · exact ⟨hx, n, .inl hn, e⟩
-      · exact ⟨hx, c.cn, .inr rfl, e⟩
-  · rw [if_neg h]
-    constructor
-    · rintro ⟨hx, n, hn, e⟩; exact ⟨hx, .inl ⟨n, hn, e⟩⟩
-    · rintro ⟨hx, ⟨n, hn, e⟩ | ⟨a, b, _⟩⟩
-      · exact ⟨hx, n, hn, e⟩
-      · exact absurd ⟨a, b⟩ h
+theorem canonB_ips_mem (b : Bool) (c : Csr) (x : Ip) :
+    x ∈ (canonB b c).ips ↔
+      (∃ i ∈ c.ips, to16 i = x) ∨ (b = false ∧ c.cn ≠ [] ∧ c.cnIp ≠ [] ∧ to16 c.cnIp = x) := by
+  cases b
+  · simp only [canonB, canonicalize]
+    rw [usi_mem]
+    by_cases h : c.cn ≠ [] ∧ c.cnIp ≠ []
+    · simp only [Bool.false_eq_true, if_false]
+      rw [if_pos h]
+      simp only [List.mem_append, List.mem_singleton]
+      constructor
+      · rintro ⟨i, hi | rfl, e⟩
+        · exact .inl ⟨i, hi, e⟩
+        · exact .inr ⟨trivial, h.1, h.2, e⟩
+      · rintro (⟨i, hi, e⟩ | ⟨_, _, _, e⟩)
+        · exact ⟨i, .inl hi, e⟩
+        · exact ⟨c.cnIp, .inr rfl, e⟩
+    · simp only [Bool.false_eq_true, if_false]
+      rw [if_neg h]
+      constructor
+      · rintro ⟨i, hi, e⟩; exact .inl ⟨i, hi, e⟩
+      · rintro (⟨i, hi, e⟩ | ⟨_, a, b, _⟩)
+        · exact ⟨i, hi, e⟩
+        · exact absurd ⟨a, b⟩ h
+  · simp only [canonB, canonicalize, if_true]
+    rw [usi_mem]
+    simp
 
-theorem canon_ips_mem (c : Csr) (x : Ip) :
-    x ∈ (canonicalize c).ips ↔
-      (∃ i ∈ c.ips, to16 i = x) ∨ (c.cn ≠ [] ∧ c.cnIp ≠ [] ∧ to16 c.cnIp = x) := by
-  simp only [canonicalize]
-  rw [usi_mem]
-  by_cases h : c.cn ≠ [] ∧ c.cnIp ≠ []
-  · rw [if_pos h]
-    simp only [List.mem_append, List.mem_singleton]
-    constructor
-    · rintro ⟨i, hi | rfl, e⟩
-      · exact .inl ⟨i, hi, e⟩
-      · exact .inr ⟨h.1, h.2, e⟩
-    · rintro (⟨i, hi, e⟩ | ⟨_, _, e⟩)
-      · exact ⟨i, .inl hi, e⟩
-      · exact ⟨c.cnIp, .inr rfl, e⟩
-  · rw [if_neg h]
-    constructor
-    · rintro ⟨i, hi, e⟩; exact .inl ⟨i, hi, e⟩
-    · rintro (⟨i, hi, e⟩ | ⟨a, b, _⟩)
-      · exact ⟨i, hi, e⟩
-      · exact absurd ⟨a, b⟩ h
+theorem canonB_fields (b : Bool) (c : Csr) :
+    (canonB b c).emails = c.emails ∧ (canonB b c).uris = c.uris ∧ (canonB b c).cn = c.cn := by
+  cases b <;> simp [canonB, canonicalize, Csr.uris]
 
-/-- What an accepted, non-attested finalization hands to the leaf template. -/
-structure LeafNames (ids : List Identifier) (c : Csr) (cn : Str) (l : List San) : Prop where
-  /-- the SAN list is a function of the order's identifiers alone -/
-  list : l = (uniqueSortedLowerNames (valuesOf .dns ids)).map San.dns ++
-             (uniqueSortedIPs (ipsOf ids)).map San.ip
+theorem canonB_ips_fix (b : Bool) (c : Csr) : ∀ y ∈ (canonB b c).ips, to16 y = y := by
+  intro y hy
+  cases b <;> exact uniqueSortedIPs_fix _ y (by simpa [canonB, canonicalize] using hy)
+
+/-- What the successful name comparison on the canonical CSR means, for either branch. -/
+structure NamesMatch (ids : List Identifier) (b : Bool) (c : Csr) : Prop where
   /-- the canonical CSR names are exactly the canonical order names -/
-  csrDns : (canonicalize c).dns = uniqueSortedLowerNames (valuesOf .dns ids)
-  csrIps : (canonicalize c).ips = uniqueSortedIPs (ipsOf ids)
+  csrDns : (canonB b c).dns = uniqueSortedLowerNames (valuesOf .dns ids)
+  csrIps : (canonB b c).ips = uniqueSortedIPs (ipsOf ids)
   ipParsed : ∀ id ∈ ids, id.typ = .ip → id.ip ≠ []
-  cnRaw : cn = c.cn
   noEmail : c.emails = 0
   noUri : c.uris = 0
-  noWire : isWire ids = false
-  noFirstPid : ∀ p, firstPid ids = some p → p.value = [] ∧ c.cn = []
 
 theorem valuesOf_mem (t : IdType) (ids : List Identifier) (v : Str) :
     v ∈ valuesOf t ids ↔ ∃ id ∈ ids, id.typ = t ∧ id.value = v := by
@@ -479,25 +568,29 @@ theorem ipsOf_mem (ids : List Identifier) (v : Ip) :
     v ∈ ipsOf ids ↔ ∃ id ∈ ids, id.typ = .ip ∧ id.ip = v := by
   simp [ipsOf, List.mem_map, List.mem_filter, and_assoc]
 
-theorem leafNames_of_accept (ids : List Identifier) (azFps : List Str) (csrFp : Option Str) (c : Csr)
-    (cn : Str) (l : List San)
-    (h : finalizeNames ids azFps csrFp c = .val (.accept false cn l)) : LeafNames ids c cn l := by
-  obtain ⟨_, hw, hcn, hcase⟩ := accept_inv _ _ _ _ _ _ _ h
-  rcases hcase with ⟨ht, _⟩ | ⟨_, hp, hs⟩
-  · cases ht
-  have ok := sans_ok _ _ _ hs
-  have hfix : (canonicalize c).ips.map to16 = (canonicalize c).ips := by
-    have : ∀ y ∈ (canonicalize c).ips, to16 y = y := by
-      intro y hy; exact uniqueSortedIPs_fix _ y (by simpa [canonicalize] using hy)
-    exact List.map_congr_left this |>.trans (List.map_id _)
-  have hips : (canonicalize c).ips = uniqueSortedIPs (ipsOf ids) := by rw [← hfix]; exact ok.ips
-  refine ⟨?_, ok.dns, hips, ?_, hcn, by simpa [canonicalize] using ok.noEmail,
-    by simpa [canonicalize] using ok.noUri, hw, hp⟩
-  · rw [ok.out, ok.dns, ← ok.ips, List.map_map]; rfl
+theorem namesMatch_of_sans (ids : List Identifier) (b : Bool) (c : Csr) (l : List San)
+    (hw : isWire ids = false) (hs : sans ids (canonB b c) = .val (.ok l)) :
+    NamesMatch ids b c ∧
+    l = (uniqueSortedLowerNames (valuesOf .dns ids)).map San.dns ++ (uniqueSortedIPs (ipsOf ids)).map San.ip := by
+  obtain ⟨tmp, htmp, ok⟩ := sans_ok _ _ _ hs
+  have ht0 : tmp = [] := wireUris_not_wire ids tmp hw htmp
+  subst ht0
+  have hnoUri : (canonB b c).uris = 0 := by simpa using ok.uriCount
+  obtain ⟨fe, fu, _⟩ := canonB_fields b c
+  have hfix : (canonB b c).ips.map to16 = (canonB b c).ips :=
+    (List.map_congr_left (canonB_ips_fix b c)).trans (List.map_id _)
+  have hips : (canonB b c).ips = uniqueSortedIPs (ipsOf ids) := by rw [← hfix]; exact ok.ips
+  refine ⟨⟨ok.dns, hips, ?_, by rw [← fe]; exact ok.noEmail, by rw [← fu]; exact hnoUri⟩, ?_⟩
   · intro id hid ht hnil
-    have : to16 id.ip ∈ uniqueSortedIPs (ipsOf ids) := (usi_mem _ _).mpr ⟨id.ip, (ipsOf_mem _ _).mpr ⟨id, hid, ht, rfl⟩, rfl⟩
+    have : to16 id.ip ∈ uniqueSortedIPs (ipsOf ids) :=
+      (usi_mem _ _).mpr ⟨id.ip, (ipsOf_mem _ _).mpr ⟨id, hid, ht, rfl⟩, rfl⟩
     exact ok.orderIpsNonNil _ this ((to16_nil _).mpr hnil)
+  · rw [ok.out, ok.dns, ← ok.ips, List.map_map, hnoUri]; simp [sortU]
 
+/-- the blanking flag Finalize uses -/
+def blankOf (ids : List Identifier) (c : Csr) : Bool := decide (pidOf ids ≠ [] ∧ c.cn = pidOf ids)
+
+theorem canonFor_eq (ids : List Identifier) (c : Csr) : canonFor (pidOf ids) c = canonB (blankOf ids c) c := rfl
 
 /-! ## property theorems -/
 
@@ -515,12 +608,17 @@ theorem finalize_names (ids : List Identifier) (azFps : List Str) (csrFp : Optio
     cn = c.cn ∧
     (cn = [] ∨ (c.cnIp = [] ∧ San.dns (Str.lower cn) ∈ l) ∨ (c.cnIp ≠ [] ∧ San.ip (to16 c.cnIp) ∈ l)) ∧
     c.emails = 0 ∧ c.uris = 0 := by
-  have L := leafNames_of_accept _ _ _ _ _ _ h
+  obtain ⟨_, hwire, hcn, _, hcase⟩ := accept_inv _ _ _ _ _ _ _ h
+  rcases hcase with ⟨ht, _⟩ | ⟨_, hp, hs⟩
+  · cases ht
+  have hb : blankOf ids c = false := by simp [blankOf, hp]
+  rw [canonFor_eq, hb] at hs
+  obtain ⟨N, hl⟩ := namesMatch_of_sans _ _ _ _ hwire hs
   have hd : ∀ x, San.dns x ∈ l ↔ x ∈ uniqueSortedLowerNames (valuesOf .dns ids) := by
-    intro x; rw [L.list]; simp
+    intro x; rw [hl]; simp
   have hi : ∀ x, San.ip x ∈ l ↔ x ∈ uniqueSortedIPs (ipsOf ids) := by
-    intro x; rw [L.list]; simp
-  refine ⟨?_, ?_, ?_, L.cnRaw, ?_, L.noEmail, L.noUri⟩
+    intro x; rw [hl]; simp
+  refine ⟨?_, ?_, ?_, hcn, ?_, N.noEmail, N.noUri⟩
   · intro x
     rw [hd, usl_mem]
     constructor
@@ -534,36 +632,38 @@ theorem finalize_names (ids : List Identifier) (azFps : List Str) (csrFp : Optio
     constructor
     · rintro ⟨i, hin, e⟩
       obtain ⟨id, hid, ht, hv⟩ := (ipsOf_mem _ _).mp hin
-      exact ⟨id, hid, ht, L.ipParsed id hid ht, by rw [hv]; exact e⟩
+      exact ⟨id, hid, ht, N.ipParsed id hid ht, by rw [hv]; exact e⟩
     · rintro ⟨id, hid, ht, _, e⟩
       exact ⟨id.ip, (ipsOf_mem _ _).mpr ⟨id, hid, ht, rfl⟩, e⟩
-  · intro v; rw [L.list]; simp
-  · rw [L.cnRaw]
+  · intro v; rw [hl]; simp
+  · rw [hcn]
     by_cases e : c.cn = []
     · exact .inl e
     · right
       by_cases e2 : c.cnIp = []
       · left
         refine ⟨e2, (hd _).mpr ?_⟩
-        rw [← L.csrDns, canon_dns_mem]
-        exact ⟨by simpa [Str.lower] using e, .inr ⟨e, e2, rfl⟩⟩
+        rw [← N.csrDns, canonB_dns_mem]
+        exact ⟨by simpa [Str.lower] using e, .inr ⟨rfl, e, e2, rfl⟩⟩
       · right
         refine ⟨e2, (hi _).mpr ?_⟩
-        rw [← L.csrIps, canon_ips_mem]
-        exact .inr ⟨e, e2, rfl⟩
+        rw [← N.csrIps, canonB_ips_mem]
+        exact .inr ⟨rfl, e, e2, rfl⟩
 
-/-- A CSR that does not name exactly the order's identifiers. -/
+/-- A CSR that does not name exactly the order's identifiers. A common name that repeats the
+    order's permanent identifier is not a name of its own (it is what the attested certificate is
+    about), so the two common-name deviations exclude that case. -/
 inductive Mismatch (ids : List Identifier) (c : Csr) : Prop where
   /-- a DNS SAN that is no identifier of the order -/
   | addDns (n : Str) (h : n ∈ c.dns) (hne : n ≠ [])
       (hno : ∀ id ∈ ids, id.typ = .dns → Str.lower id.value ≠ Str.lower n)
   /-- an IP SAN that is no identifier of the order -/
   | addIp (i : Ip) (h : i ∈ c.ips) (hno : ∀ id ∈ ids, id.typ = .ip → to16 id.ip ≠ to16 i)
-  /-- a common name (not an IP) that is no DNS identifier -/
-  | cnDns (hcn : c.cn ≠ []) (hip : c.cnIp = [])
+  /-- a common name (not an IP, not the permanent identifier) that is no DNS identifier -/
+  | cnDns (hcn : c.cn ≠ []) (hip : c.cnIp = []) (hpid : c.cn ≠ pidOf ids)
       (hno : ∀ id ∈ ids, id.typ = .dns → Str.lower id.value ≠ Str.lower c.cn)
-  /-- a common name that parses as an IP and is no IP identifier -/
-  | cnIp (hcn : c.cn ≠ []) (hip : c.cnIp ≠ [])
+  /-- a common name that parses as an IP (not the permanent identifier) and is no IP identifier -/
+  | cnIp (hcn : c.cn ≠ []) (hip : c.cnIp ≠ []) (hpid : c.cn ≠ pidOf ids)
       (hno : ∀ id ∈ ids, id.typ = .ip → to16 id.ip ≠ to16 c.cnIp)
   /-- a DNS identifier that is neither a SAN nor the common name -/
   | omitDns (id : Identifier) (h : id ∈ ids) (ht : id.typ = .dns) (hne : id.value ≠ [])
@@ -576,26 +676,35 @@ inductive Mismatch (ids : List Identifier) (c : Csr) : Prop where
   | email (h : c.emails > 0)
   | uri (h : c.uris > 0)
 
-/-- **add_or_omit_refused** (orders without permanent identifier): a CSR that adds or omits an
-    identifier, in its SANs or through its common name, or carries an e-mail address or URI,
-    is never accepted. -/
+/-- **add_or_omit_refused** (every order, attested or not; full strength since /repo cde9cd9): a CSR
+    that adds or omits a dns/ip identifier, in its SANs or through its common name, or carries an
+    e-mail address or URI, is never accepted in any form. -/
 theorem add_or_omit_refused (ids : List Identifier) (azFps : List Str) (csrFp : Option Str) (c : Csr)
-    (m : Mismatch ids c) (cn : Str) (l : List San) :
-    finalizeNames ids azFps csrFp c ≠ .val (.accept false cn l) := by
+    (m : Mismatch ids c) (a : Bool) (cn : Str) (l : List San) :
+    finalizeNames ids azFps csrFp c ≠ .val (.accept a cn l) := by
   intro h
-  have L := leafNames_of_accept _ _ _ _ _ _ h
-  have hd : ∀ x, x ∈ (canonicalize c).dns ↔ x ≠ [] ∧ ∃ id ∈ ids, id.typ = .dns ∧ Str.lower id.value = x := by
+  obtain ⟨_, hwire, _, hcnr, hcase⟩ := accept_inv _ _ _ _ _ _ _ h
+  have hs : ∃ l', sans ids (canonB (blankOf ids c) c) = .val (.ok l') := by
+    rcases hcase with ⟨_, _, _, _, l', hs⟩ | ⟨_, _, hs⟩
+    · exact ⟨l', by rw [← canonFor_eq]; exact hs⟩
+    · exact ⟨l, by rw [← canonFor_eq]; exact hs⟩
+  obtain ⟨l', hs⟩ := hs
+  obtain ⟨N, _⟩ := namesMatch_of_sans _ _ _ _ hwire hs
+  -- when the common name is not the permanent identifier it is not blanked
+  have hblank : c.cn ≠ pidOf ids → blankOf ids c = false := by
+    intro hne; simp [blankOf, hne]
+  have hd : ∀ x, x ∈ (canonB (blankOf ids c) c).dns ↔ x ≠ [] ∧ ∃ id ∈ ids, id.typ = .dns ∧ Str.lower id.value = x := by
     intro x
-    rw [L.csrDns, usl_mem]
+    rw [N.csrDns, usl_mem]
     constructor
     · rintro ⟨hx, n, hn, e⟩
       obtain ⟨id, hid, ht, hv⟩ := (valuesOf_mem _ _ _).mp hn
       exact ⟨hx, id, hid, ht, by rw [hv]; exact e⟩
     · rintro ⟨hx, id, hid, ht, e⟩
       exact ⟨hx, id.value, (valuesOf_mem _ _ _).mpr ⟨id, hid, ht, rfl⟩, e⟩
-  have hi : ∀ x, x ∈ (canonicalize c).ips ↔ ∃ id ∈ ids, id.typ = .ip ∧ to16 id.ip = x := by
+  have hi : ∀ x, x ∈ (canonB (blankOf ids c) c).ips ↔ ∃ id ∈ ids, id.typ = .ip ∧ to16 id.ip = x := by
     intro x
-    rw [L.csrIps, usi_mem]
+    rw [N.csrIps, usi_mem]
     constructor
     · rintro ⟨i, hin, e⟩
       obtain ⟨id, hid, ht, hv⟩ := (ipsOf_mem _ _).mp hin
@@ -604,75 +713,94 @@ theorem add_or_omit_refused (ids : List Identifier) (azFps : List Str) (csrFp : 
       exact ⟨id.ip, (ipsOf_mem _ _).mpr ⟨id, hid, ht, rfl⟩, e⟩
   cases m with
   | addDns n hn hne hno =>
-    have : Str.lower n ∈ (canonicalize c).dns :=
-      (canon_dns_mem _ _).mpr ⟨by simpa [Str.lower] using hne, .inl ⟨n, hn, rfl⟩⟩
+    have : Str.lower n ∈ (canonB (blankOf ids c) c).dns :=
+      (canonB_dns_mem _ _ _).mpr ⟨by simpa [Str.lower] using hne, .inl ⟨n, hn, rfl⟩⟩
     obtain ⟨_, id, hid, ht, e⟩ := (hd _).mp this
     exact hno id hid ht e
   | addIp i hin hno =>
-    have : to16 i ∈ (canonicalize c).ips := (canon_ips_mem _ _).mpr (.inl ⟨i, hin, rfl⟩)
+    have : to16 i ∈ (canonB (blankOf ids c) c).ips := (canonB_ips_mem _ _ _).mpr (.inl ⟨i, hin, rfl⟩)
     obtain ⟨id, hid, ht, e⟩ := (hi _).mp this
     exact hno id hid ht e
-  | cnDns hcn hip hno =>
-    have : Str.lower c.cn ∈ (canonicalize c).dns :=
-      (canon_dns_mem _ _).mpr ⟨by simpa [Str.lower] using hcn, .inr ⟨hcn, hip, rfl⟩⟩
+  | cnDns hcn hip hpid hno =>
+    have : Str.lower c.cn ∈ (canonB (blankOf ids c) c).dns :=
+      (canonB_dns_mem _ _ _).mpr ⟨by simpa [Str.lower] using hcn, .inr ⟨hblank hpid, hcn, hip, rfl⟩⟩
     obtain ⟨_, id, hid, ht, e⟩ := (hd _).mp this
     exact hno id hid ht e
-  | cnIp hcn hip hno =>
-    have : to16 c.cnIp ∈ (canonicalize c).ips := (canon_ips_mem _ _).mpr (.inr ⟨hcn, hip, rfl⟩)
+  | cnIp hcn hip hpid hno =>
+    have : to16 c.cnIp ∈ (canonB (blankOf ids c) c).ips :=
+      (canonB_ips_mem _ _ _).mpr (.inr ⟨hblank hpid, hcn, hip, rfl⟩)
     obtain ⟨id, hid, ht, e⟩ := (hi _).mp this
     exact hno id hid ht e
   | omitDns id hid ht hne hno hcn =>
-    have : Str.lower id.value ∈ (canonicalize c).dns :=
+    have : Str.lower id.value ∈ (canonB (blankOf ids c) c).dns :=
       (hd _).mpr ⟨by simpa [Str.lower] using hne, id, hid, ht, rfl⟩
-    rcases (canon_dns_mem _ _).mp this with ⟨_, ⟨n, hn, e⟩ | ⟨_, b, e⟩⟩
+    rcases (canonB_dns_mem _ _ _).mp this with ⟨_, ⟨n, hn, e⟩ | ⟨_, _, b, e⟩⟩
     · exact hno n hn e
     · exact hcn ⟨b, e⟩
   | omitIp id hid ht hno hcn =>
-    have : to16 id.ip ∈ (canonicalize c).ips := (hi _).mpr ⟨id, hid, ht, rfl⟩
-    rcases (canon_ips_mem _ _).mp this with ⟨i, hin, e⟩ | ⟨a, b, e⟩
+    have : to16 id.ip ∈ (canonB (blankOf ids c) c).ips := (hi _).mpr ⟨id, hid, ht, rfl⟩
+    rcases (canonB_ips_mem _ _ _).mp this with ⟨i, hin, e⟩ | ⟨_, a, b, e⟩
     · exact hno i hin e
     · exact hcn ⟨a, b, e⟩
-  | email he => have := L.noEmail; omega
-  | uri hu => have := L.noUri; omega
+  | email he => have := N.noEmail; omega
+  | uri hu => have := N.noUri; omega
 
-/-- **attested.** An accepted finalization of an order with a permanent identifier uses the
-    attested template, with the first permanent identifier as the only name, a common name that
-    is empty or that identifier; and whenever an authorization of the order carries an attested
-    key fingerprint, the CSR key has that fingerprint (this half holds for every accepted
-    finalization). -/
+/-- **attested.** Any accepted finalization: whenever an authorization of the order carries an
+    attested key fingerprint, the CSR key has that fingerprint. The attested template is used iff
+    the order has a non-empty first permanent identifier; then (since /repo 4f1731b) a fingerprint IS
+    recorded on one of the order's authorizations and the CSR key has it, that identifier is the only name
+    given to the template, the common name is empty or equal to it, and the CSR's DNS/IP names
+    (that common name aside) are exactly the order's dns/ip identifiers, with no e-mail or URI. -/
 theorem attested (ids : List Identifier) (azFps : List Str) (csrFp : Option Str) (c : Csr)
     (a : Bool) (cn : Str) (l : List San)
     (h : finalizeNames ids azFps csrFp c = .val (.accept a cn l)) :
     (firstFingerprint azFps ≠ [] → csrFp = some (firstFingerprint azFps)) ∧
-    (a = true ↔ ∃ p, firstPid ids = some p ∧ p.value ≠ []) ∧
-    (a = true → ∃ p, firstPid ids = some p ∧ p.value ≠ [] ∧ l = [San.pid p.value] ∧
-        cn = c.cn ∧ (cn = [] ∨ cn = p.value)) := by
-  obtain ⟨hg, _, hcn, hcase⟩ := accept_inv _ _ _ _ _ _ _ h
+    (a = true ↔ pidOf ids ≠ []) ∧
+    (a = true → csrFp = some (firstFingerprint azFps) ∧ firstFingerprint azFps ≠ [] ∧
+        l = [San.pid (pidOf ids)] ∧ cn = c.cn ∧ (cn = [] ∨ cn = pidOf ids) ∧
+        NamesMatch ids (blankOf ids c) c) := by
+  obtain ⟨hg, hwire, hcn, hcnr, hcase⟩ := accept_inv _ _ _ _ _ _ _ h
   refine ⟨hg, ?_, ?_⟩
-  · rcases hcase with ⟨ht, p, hp, hv, _⟩ | ⟨hf, hp, _⟩
-    · exact ⟨fun _ => ⟨p, hp, hv⟩, fun _ => ht⟩
-    · constructor
-      · intro ht; rw [hf] at ht; cases ht
-      · rintro ⟨p, hp', hv⟩; exact absurd (hp p hp').1 hv
+  · rcases hcase with ⟨ht, hv, _⟩ | ⟨hf, hp, _⟩
+    · exact ⟨fun _ => hv, fun _ => ht⟩
+    · exact ⟨fun ht => (by rw [hf] at ht; cases ht), fun hv => absurd hp hv⟩
   · intro ht
-    rcases hcase with ⟨_, p, hp, hv, hl, hc⟩ | ⟨hf, _, _⟩
-    · exact ⟨p, hp, hv, hl, hcn, by rw [hcn]; exact hc⟩
+    rcases hcase with ⟨_, hv, hfp, hl, l', hs⟩ | ⟨hf, _, _⟩
+    · rw [canonFor_eq] at hs
+      refine ⟨hg hfp, hfp, hl, hcn, ?_, (namesMatch_of_sans _ _ _ _ hwire hs).1⟩
+      rw [hcn]
+      rcases hcnr with e | e | e
+      · exact .inl e
+      · exact .inr e
+      · exfalso; apply hv; simp [pidOf, e]
     · rw [hf] at ht; cases ht
 
 /-- **finalizeNames_total**: no identifier list and no CSR makes the name handling abort
     (index expressions of `sans` stay in range). -/
 theorem finalizeNames_total (ids : List Identifier) (azFps : List Str) (csrFp : Option Str) (c : Csr) :
     finalizeNames ids azFps csrFp c ≠ .crash := by
-  have key : ∀ cn, finOfSans cn (sans ids (canonicalize c)) ≠ .crash := by
-    intro cn
-    have := sans_total ids (canonicalize c)
-    cases hs : sans ids (canonicalize c) with
+  have key : ∀ cn x, finOfSans cn (sans ids x) ≠ .crash := by
+    intro cn x
+    have := sans_total ids x
+    cases hs : sans ids x with
     | crash => exact absurd hs this
     | val v => cases v <;> simp [finOfSans]
+  have key2 : ∀ cn p x, finOfSansAttested cn p (sans ids x) ≠ .crash := by
+    intro cn p x
+    have := sans_total ids x
+    cases hs : sans ids x with
+    | crash => exact absurd hs this
+    | val v => cases v <;> simp [finOfSansAttested]
+  have key3 : ∀ cn o x, finOfSansWire cn o (sans ids x) ≠ .crash := by
+    intro cn o x
+    have := sans_total ids x
+    cases hs : sans ids x with
+    | crash => exact absurd hs this
+    | val v => cases v <;> simp [finOfSansWire]
   unfold finalizeNames
   simp only
   repeat' split
-  all_goals first | exact key _ | simp
+  all_goals first | exact key _ _ | exact key2 _ _ _ | exact key3 _ _ _ | simp
 
 /-- **validate_ok**: what `NewOrderRequest.Validate` guarantees about an accepted identifier list. -/
 theorem validate_ok (ids : List Identifier) (h : validate ids = .ok) :
@@ -708,10 +836,22 @@ theorem validated_sans (ids : List Identifier) (c : Csr) (h : validate ids = .ok
     simp [isWire]
     intro id hid
     rcases hall id hid with ⟨t, _⟩ | ⟨t, _⟩ | ⟨t, _⟩ <;> simp [t]
-  have ho : ids.any (·.typ = .other) = false := by
-    simp
+  have hwu : wireUris ids = some [] := by
+    have gen : ∀ (l : List Identifier), (∀ id ∈ l, id.typ = .dns ∨ id.typ = .ip ∨ id.typ = .pid) → wireUris l = some [] := by
+      intro l
+      induction l with
+      | nil => intro _; rfl
+      | cons x xs ih =>
+        intro hx
+        have hr := ih (fun id hid => hx id (List.mem_cons_of_mem _ hid))
+        unfold wireUris
+        rcases hx x List.mem_cons_self with t | t | t <;> simp [t, hr]
+    apply gen
     intro id hid
-    rcases hall id hid with ⟨t, _⟩ | ⟨t, _⟩ | ⟨t, _⟩ <;> simp [t]
+    rcases hall id hid with ⟨t, _⟩ | ⟨t, _⟩ | ⟨t, _⟩
+    · exact .inl t
+    · exact .inr (.inl t)
+    · exact .inr (.inr t)
   have nt := sans_total ids c
   cases hs : sans ids c with
   | crash => exact absurd hs nt
@@ -722,13 +862,13 @@ theorem validated_sans (ids : List Identifier) (c : Csr) (h : validate ids = .ok
     | ise =>
       exfalso
       unfold sans at hs
-      simp only [hw, ho] at hs
+      simp only [hwu] at hs
       repeat' split at hs
       all_goals simp_all
     | unmodelled =>
       exfalso
       unfold sans at hs
-      simp only [hw, ho] at hs
+      simp only [hwu] at hs
       repeat' split at hs
       all_goals simp_all
 
@@ -764,27 +904,29 @@ theorem uniqueSortedIPs_spec (ips : List Ip) :
   intro l' hl' hm
   exact sorted_ext _ _ hl' hs (fun z => by rw [hm, usi_mem])
 
-/-- `add_or_omit_refused` at full strength (for every order) is false as the code stands: an
-    order with a permanent identifier accepts a CSR that carries a foreign DNS name and an
-    e-mail address (they are dropped, not refused). -/
-theorem add_or_omit_refused_attested_counterexample :
-    ∃ ids azFps csrFp c a cn l, Mismatch ids c ∧ finalizeNames ids azFps csrFp c = .val (.accept a cn l) :=
-  ⟨[{ typ := .pid, value := s "dev1" }], [s "fp"], some (s "fp"),
-   { cn := [], cnIp := [], dns := [s "evil.example.net"], ips := [], emails := 1, uris := 0 },
-   true, [], [San.pid (s "dev1")], .email (by decide), by decide⟩
+/-- the name part of Finalize as it was before /repo cde9cd9: the attested branch never called
+    `o.sans` and the common name was always folded into the names -/
+def finalizeNamesPre (ids : List Identifier) (azFps : List Str) (csrFp : Option Str) (c0 : Csr) : M FinOut :=
+  let fp := firstFingerprint azFps
+  if fp ≠ [] ∧ csrFp = none then .val .ise
+  else if fp ≠ [] ∧ csrFp ≠ some fp then .val .unauthorized
+  else
+    let c := canonicalize c0
+    if isWire ids then .val .unmodelled
+    else if (firstPid ids).isSome ∧ c.cn ≠ [] ∧ c.cn ≠ pidOf ids then .val .badCSR
+    else if pidOf ids ≠ [] then .val (.accept true c.cn [San.pid (pidOf ids)])
+    else finOfSans c.cn (sans ids c)
 
-/-- **add_or_omit_refused_partial**: with the extra hypothesis that the order has no (non-empty)
-    permanent identifier, a mismatching CSR is never accepted in any form. -/
-theorem add_or_omit_refused_partial (ids : List Identifier) (azFps : List Str) (csrFp : Option Str)
-    (c : Csr) (m : Mismatch ids c) (hp : ∀ p, firstPid ids = some p → p.value = [])
-    (a : Bool) (cn : Str) (l : List San) :
-    finalizeNames ids azFps csrFp c ≠ .val (.accept a cn l) := by
-  intro h
-  cases a with
-  | false => exact add_or_omit_refused ids azFps csrFp c m cn l h
-  | true =>
-    obtain ⟨p, hp', hv, _⟩ := (attested _ _ _ _ _ _ _ h).2.2 rfl
-    exact hv (hp p hp')
+/-- historic (C13-F1, repaired by cde9cd9): before the fix an order with a permanent identifier
+    accepted a CSR carrying a foreign DNS name and an e-mail address (they were dropped, not
+    refused); the repaired code refuses it. -/
+theorem attested_extra_names_historic :
+    ∃ ids azFps csrFp c a cn l, Mismatch ids c ∧
+      finalizeNamesPre ids azFps csrFp c = .val (.accept a cn l) ∧
+      finalizeNames ids azFps csrFp c = .val .badCSR :=
+  ⟨[{ typ := .pid, value := s "dev1" }], [s "fp"], some (s "fp"),
+   { cn := [], cnIp := [], dns := [s "evil.example.net"], ips := [], emails := 1 },
+   true, [], [San.pid (s "dev1")], .email (by decide), by decide, by decide⟩
 
 /-- "The certificate covers exactly the order's identifiers" is false for orders that mix a
     permanent identifier with other identifiers (`NewOrderRequest.Validate` admits them): the DNS
@@ -795,7 +937,7 @@ theorem mixed_order_drops_identifiers :
       ∃ id ∈ ids, id.typ = .dns ∧ San.dns (Str.lower id.value) ∉ l :=
   ⟨[{ typ := .pid, value := s "dev1" }, { typ := .dns, value := s "a.example.com" }],
    [s "fp", []], some (s "fp"),
-   { cn := [], cnIp := [], dns := [s "a.example.com"], ips := [], emails := 0, uris := 0 },
+   { cn := [], cnIp := [], dns := [s "a.example.com"], ips := [], emails := 0 },
    [], [San.pid (s "dev1")], by decide, by decide,
    ⟨{ typ := .dns, value := s "a.example.com" }, by decide, rfl, by decide⟩⟩
 
@@ -806,25 +948,32 @@ example :
       [{ typ := .dns, value := s "A.example.com" }, { typ := .dns, value := s "a.EXAMPLE.com" },
        { typ := .ip, value := s "::ffff:10.0.0.1", ip := v4InV6Prefix ++ [10, 0, 0, 1] }]
       [[], [], []] (some (s "k"))
-      { cn := s "a.example.COM", cnIp := [], dns := [], ips := [[10, 0, 0, 1]], emails := 0, uris := 0 }
+      { cn := s "a.example.COM", cnIp := [], dns := [], ips := [[10, 0, 0, 1]], emails := 0 }
     = .val (.accept false (s "a.example.COM")
         [San.dns (s "a.example.com"), San.ip (v4InV6Prefix ++ [10, 0, 0, 1])]) := by decide
 
 /-- `Mismatch` is inhabited by each kind of deviation; e.g. an omitted identifier -/
 example : Mismatch [{ typ := .dns, value := s "a.example.com" }, { typ := .dns, value := s "b.example.com" }]
-    { cn := [], cnIp := [], dns := [s "a.example.com"], ips := [], emails := 0, uris := 0 } :=
+    { cn := [], cnIp := [], dns := [s "a.example.com"], ips := [], emails := 0 } :=
   .omitDns { typ := .dns, value := s "b.example.com" } (by decide) rfl (by decide) (by decide) (by decide)
 
 /-- `attested` with `a = true` is met by the ordinary device-attest order -/
 example :
     finalizeNames [{ typ := .pid, value := s "dev1" }] [s "fp"] (some (s "fp"))
-      { cn := s "dev1", cnIp := [], dns := [], ips := [], emails := 0, uris := 0 }
+      { cn := s "dev1", cnIp := [], dns := [], ips := [], emails := 0 }
     = .val (.accept true (s "dev1") [San.pid (s "dev1")]) := by decide
+
+/-- a mixed order must list its other identifiers in the CSR (and nothing else) -/
+example :
+    finalizeNames [{ typ := .pid, value := s "dev1" }, { typ := .dns, value := s "a.example.com" }] [s "fp", []] (some (s "fp"))
+      { cn := s "dev1", cnIp := [], dns := [], ips := [], emails := 0 } = .val .badCSR ∧
+    finalizeNames [{ typ := .pid, value := s "dev1" }] [s "fp"] (some (s "fp"))
+      { cn := s "dev1", cnIp := [], dns := [s "evil.example.net"], ips := [], emails := 0 } = .val .badCSR := by decide
 
 /-- and the attested key is enforced: another CSR key is refused -/
 example :
     finalizeNames [{ typ := .pid, value := s "dev1" }] [s "fp"] (some (s "other"))
-      { cn := s "dev1", cnIp := [], dns := [], ips := [], emails := 0, uris := 0 }
+      { cn := s "dev1", cnIp := [], dns := [], ips := [], emails := 0 }
     = .val .unauthorized := by decide
 
 example : validate [{ typ := .dns, value := s "*.example.com" }, { typ := .ip, value := s "10.0.0.1", ip := v4InV6Prefix ++ [10, 0, 0, 1] }] = .ok := by decide
@@ -833,34 +982,369 @@ example : validate [{ typ := .dns, value := s "*.example.com" }, { typ := .ip, v
 
 /-- **order_authz_cover**: `api.NewOrder` stores exactly one authorization per order identifier, in
     order; the i-th authorization backs the i-th identifier (same type, same name, same wildcard
-    flag), and a wildcard authorization offers dns-01 only. With C10's
-    `finalizable_order_authorizations` (a finalizable order's authorizations are all valid and owned
-    by the order's account) this is "each identifier is backed by a valid authorization of the same
-    account". -/
+    flag) provided the identifier is a dns name or does not begin with `*.`; a wildcard
+    authorization of a dns name offers dns-01 only. With C10's `finalizable_order_authorizations`
+    (a finalizable order's authorizations are all valid and owned by the order's account) this is
+    "each identifier is backed by a valid authorization of the same account". The proviso is
+    needed: `pid_wildcard_unbacked`. -/
 theorem order_authz_cover (enabled : List ChalType) (ids : List Identifier) :
     (newOrderAuthzs enabled ids).length = ids.length ∧
     ∀ (i : Nat) (id : Identifier), ids[i]? = some id →
-      ∃ a, (newOrderAuthzs enabled ids)[i]? = some a ∧ backs a id = true ∧
+      ∃ a, (newOrderAuthzs enabled ids)[i]? = some a ∧
+        (id.typ = .dns ∨ isWildcard id.value = false → backs a id = true) ∧
         a.value = trimIfWildcard id.value ∧
         (a.wildcard = true → ∀ c ∈ a.chals, c = .dns01 ∨ a.typ ≠ .dns) := by
   refine ⟨by simp [newOrderAuthzs], ?_⟩
   intro i id h
-  refine ⟨newAuthorization enabled id, by simp [newOrderAuthzs, h], by simp [backs, newAuthorization], rfl, ?_⟩
-  intro hw c hc
-  simp [newAuthorization] at hw hc
-  cases ht : id.typ <;> simp [newAuthorization, challengeTypes, ht, hw] at hc ⊢
-  exact hc.1
+  refine ⟨newAuthorization enabled id, by simp [newOrderAuthzs, h], ?_, rfl, ?_⟩
+  · intro hd
+    rcases hd with hd | hd
+    · simp [backs, newAuthorization, hd]
+    · by_cases ht : id.typ = .dns
+      · simp [backs, newAuthorization, ht]
+      · simp [backs, newAuthorization, ht, hd, trimIfWildcard]
+  · intro hw c hc
+    simp [newAuthorization] at hw hc
+    cases ht : id.typ <;> simp [newAuthorization, challengeTypes, ht, hw] at hc ⊢
+    exact hc.1
+
+/-- **pid_wildcard_unbacked** (refutation of the clause without the proviso, finding C13-F4):
+    `newAuthorization` strips a leading `*.` from an identifier of EVERY type. For the permanent
+    identifier `*.1234` the stored authorization and its device-attest-01 challenge are for `1234`
+    (the attestation has to name `1234`), while the order keeps `*.1234` and Finalize writes
+    `*.1234` into the certificate: a name that no authorization backs. -/
+theorem pid_wildcard_unbacked :
+    let id : Identifier := { typ := .pid, value := s "*.1234" }
+    let a := newAuthorization [.deviceAttest01] id
+    a.value = s "1234" ∧ a.chals = [.deviceAttest01] ∧ backs a id = false ∧
+    -- the authorization does back the identifier that was attested
+    backs { a with wildcard := false } { typ := .pid, value := s "1234" } = true := by decide
 
 /-- a base name's authorization does not back the wildcard name and vice versa: sharing one
     authorization between `example.com` and `*.example.com` leaves one of them unbacked -/
-theorem backs_wildcard_distinct (a : AuthzSpec) (x y : Identifier)
+theorem backs_wildcard_distinct (a : AuthzSpec) (x y : Identifier) (hdx : x.typ = .dns) (hdy : y.typ = .dns)
     (hx : backs a x = true) (hy : backs a y = true) : isWildcard x.value = isWildcard y.value := by
-  simp [backs] at hx hy
-  rw [← hx.1.2, ← hy.1.2]
+  simp [backs, hdx, hdy] at hx hy
+  rw [← hx.2.1, ← hy.2.1]
 
 example : backs (newAuthorization [.dns01, .http01] { typ := .dns, value := s "example.com" })
     { typ := .dns, value := s "*.example.com" } = false := by decide
 example : newOrderAuthzs [.dns01, .http01, .tlsalpn01] [{ typ := .dns, value := s "a.io" }, { typ := .dns, value := s "*.a.io" }] =
     [⟨.dns, s "a.io", false, [.dns01, .http01, .tlsalpn01]⟩, ⟨.dns, s "a.io", true, [.dns01]⟩] := by decide
+
+/-! ## 6. Wire orders -/
+
+def isWireId (id : Identifier) : Bool := id.typ = .wireUser || id.typ = .wireDevice
+
+theorem wireLoop_spec (c : Csr) : ∀ (ids : List Identifier) (st st' : WS), wireLoop c ids st = .ok st' →
+    st'.others = st.others + (ids.filter (fun i => !isWireId i)).length ∧
+    ((st'.cn = st.cn ∧ st'.org = st.org) ∨
+      ∃ id ∈ ids, id.typ = .wireUser ∧ id.wire.parsed = true ∧ st'.cn = id.wire.name ∧ st'.org = id.wire.domain ∧
+        scanDisplay id.wire.name c.displayNames false = .ok true ∧
+        ∃ o rest, c.orgs = o :: rest ∧ Str.foldEq o id.wire.domain = true) := by
+  intro ids
+  induction ids with
+  | nil => intro st st' h; simp [wireLoop] at h; subst h; simp
+  | cons id rest ih =>
+    intro st st' h
+    unfold wireLoop at h
+    cases ht : id.typ <;> simp only [ht] at h
+    case wireUser =>
+      split at h
+      · cases h
+      rename_i hp
+      split at h
+      · cases h
+      · cases h
+      rename_i hscan
+      split at h
+      · cases h
+      rename_i o rs horg
+      split at h
+      · cases h
+      rename_i hfe
+      obtain ⟨a, b⟩ := ih _ _ h
+      refine ⟨by simp [isWireId, ht] at a ⊢; exact a, ?_⟩
+      rcases b with ⟨b1, b2⟩ | ⟨id', hid', r⟩
+      · right
+        exact ⟨id, List.mem_cons_self, ht, by simpa using hp, b1, b2, hscan, o, rs, horg, by simpa using hfe⟩
+      · exact .inr ⟨id', List.mem_cons_of_mem _ hid', r⟩
+    case wireDevice =>
+      obtain ⟨a, b⟩ := ih _ _ h
+      refine ⟨by simp [isWireId, ht] at a ⊢; exact a, ?_⟩
+      rcases b with b | ⟨id', hid', r⟩
+      · exact .inl b
+      · exact .inr ⟨id', List.mem_cons_of_mem _ hid', r⟩
+    all_goals
+      obtain ⟨a, b⟩ := ih _ _ h
+      refine ⟨by simp [isWireId, ht] at a ⊢; omega, ?_⟩
+      rcases b with b | ⟨id', hid', r⟩
+      · exact .inl b
+      · exact .inr ⟨id', List.mem_cons_of_mem _ hid', r⟩
+
+/-- every display-name attribute the scan accepted is the string `name` -/
+theorem scanDisplay_ok (name : Str) : ∀ (l : List (Option Str)) (f : Bool), scanDisplay name l f = .ok true →
+    (∀ e ∈ l, e = some name) ∧ (l ≠ [] ∨ f = true) := by
+  intro l
+  induction l with
+  | nil => intro f h; simp [scanDisplay] at h; exact ⟨by simp, .inr h⟩
+  | cons e rest ih =>
+    intro f h
+    cases e with
+    | none => simp [scanDisplay] at h
+    | some v =>
+      simp only [scanDisplay] at h
+      split at h
+      · cases h
+      rename_i hv
+      have := (ih true h).1
+      exact ⟨by intro x hx; rcases List.mem_cons.mp hx with rfl | hx; simpa using hv; exact this x hx, .inl (by simp)⟩
+
+/-- what the identifier loop of `sans` establishes when it succeeds -/
+def WireUrisSpec (ids : List Identifier) (tmp : List Str) : Prop :=
+  (∀ id ∈ ids, id.typ ≠ .other) ∧
+  (∀ id ∈ ids, isWireId id = true → id.wire.parsed = true ∧ ∃ u, id.wire.uri = some u ∧ u ∈ tmp) ∧
+  (∀ u ∈ tmp, ∃ id ∈ ids, isWireId id = true ∧ id.wire.uri = some u)
+
+theorem wireUris_mem : ∀ (ids : List Identifier) (tmp : List Str), wireUris ids = some tmp →
+    WireUrisSpec ids tmp := by
+  intro ids
+  induction ids with
+  | nil => intro tmp h; simp [wireUris] at h; subst h; simp [WireUrisSpec]
+  | cons id rest ih =>
+    intro tmp h
+    unfold wireUris at h
+    have plain : isWireId id = false → id.typ ≠ .other → wireUris rest = some tmp → WireUrisSpec (id :: rest) tmp := by
+      intro hnw hno hr
+      obtain ⟨a, b, c⟩ := ih tmp hr
+      exact ⟨by intro x hx; rcases List.mem_cons.mp hx with rfl | hx; exact hno; exact a x hx,
+        by intro x hx hwx; rcases List.mem_cons.mp hx with rfl | hx; simp [hnw] at hwx; exact b x hx hwx,
+        by intro u hu; obtain ⟨x, hx, r⟩ := c u hu; exact ⟨x, List.mem_cons_of_mem _ hx, r⟩⟩
+    have wirecase : isWireId id = true → (if (!id.wire.parsed) = true then none else
+        match id.wire.uri with | none => none | some u => Option.map (fun x => u :: x) (wireUris rest)) = some tmp →
+        WireUrisSpec (id :: rest) tmp := by
+      intro hwi h
+      split at h
+      · cases h
+      rename_i hp
+      cases hu : id.wire.uri with
+      | none => simp [hu] at h
+      | some u =>
+        simp only [hu] at h
+        cases hr : wireUris rest with
+        | none => simp [hr] at h
+        | some t =>
+          simp [hr] at h
+          subst h
+          obtain ⟨a, b, c⟩ := ih t hr
+          exact ⟨by intro x hx; rcases List.mem_cons.mp hx with rfl | hx
+                    · intro e; simp [isWireId, e] at hwi
+                    · exact a x hx,
+            by intro x hx hwx; rcases List.mem_cons.mp hx with rfl | hx
+               · exact ⟨by simpa using hp, u, hu, by simp⟩
+               · obtain ⟨p, v, hv, hm⟩ := b x hx hwx; exact ⟨p, v, hv, List.mem_cons_of_mem _ hm⟩,
+            by intro v hv; rcases List.mem_cons.mp hv with rfl | hv
+               · exact ⟨id, List.mem_cons_self, hwi, hu⟩
+               · obtain ⟨x, hx, r⟩ := c v hv; exact ⟨x, List.mem_cons_of_mem _ hx, r⟩⟩
+    cases ht : id.typ <;> simp only [ht] at h
+    · exact plain (by simp [isWireId, ht]) (by simp [ht]) h
+    · exact plain (by simp [isWireId, ht]) (by simp [ht]) h
+    · exact plain (by simp [isWireId, ht]) (by simp [ht]) h
+    · exact wirecase (by simp [isWireId, ht]) h
+    · exact wirecase (by simp [isWireId, ht]) h
+    · cases h
+
+
+/-- **wire_names.** An accepted finalization of a Wire order (answer `acceptWire`): the
+    attested-key gate held; every identifier is a Wire identifier that parsed and whose handle /
+    client id is a URL; the CSR has no e-mail address, no DNS name, no IP address and no common
+    name that would become one; its URIs are, as sets, exactly the URIs of the order's identifiers
+    and as many as there are identifiers; the URI SANs given to the template are exactly those
+    URIs; no DNS, IP or permanent-identifier SAN; the template subject is empty or is the name and
+    domain of a user identifier of the order, every display-name attribute of the CSR being that
+    name (at least one) and the CSR's first Organization its domain (ASCII case aside). -/
+theorem wire_names (ids : List Identifier) (azFps : List Str) (csrFp : Option Str) (c : Csr)
+    (cn org : Str) (l : List San)
+    (h : finalizeNames ids azFps csrFp c = .val (.acceptWire cn org l)) :
+    ∃ tmp, wireUris ids = some tmp ∧ WireUrisSpec ids tmp ∧
+      fpGate azFps csrFp ∧
+      (∀ id ∈ ids, isWireId id = true) ∧
+      c.emails = 0 ∧ c.uris = tmp.length ∧
+      (∀ u, u ∈ c.uriStrs ↔ u ∈ tmp) ∧
+      (∀ u, San.uri u ∈ l ↔ u ∈ tmp) ∧
+      (∀ x, San.dns x ∉ l ∧ San.ip x ∉ l ∧ San.pid x ∉ l) ∧
+      (c.dns.all (fun n => n == []) = true ∧ c.ips = []) ∧
+      ((cn = [] ∧ org = []) ∨
+        ∃ id ∈ ids, id.typ = .wireUser ∧ cn = id.wire.name ∧ org = id.wire.domain ∧
+          (∀ e ∈ c.displayNames, e = some cn) ∧ c.displayNames ≠ [] ∧
+          ∃ o rest, c.orgs = o :: rest ∧ Str.foldEq o org = true) := by
+  unfold finalizeNames at h
+  simp only at h
+  split at h
+  · cases h
+  rename_i g1
+  split at h
+  · cases h
+  rename_i g2
+  have hg : fpGate azFps csrFp := by
+    intro hne
+    cases hc : csrFp with
+    | none => exact absurd ⟨hne, hc⟩ g1
+    | some v =>
+      by_cases e : some v = some (firstFingerprint azFps)
+      · exact e
+      · exact absurd ⟨hne, by rw [hc]; exact e⟩ g2
+  split at h
+  · cases h
+  split at h
+  rotate_left
+  · -- not a Wire order: the answer is `accept`, never `acceptWire`
+    exfalso
+    split at h
+    · split at h
+      · cases h
+      cases hs : sans ids (canonFor (pidOf ids) c) with
+      | crash => simp [hs, finOfSansAttested] at h
+      | val v => cases v <;> simp [hs, finOfSansAttested] at h
+    · cases hs : sans ids (canonFor (pidOf ids) c) with
+      | crash => simp [hs, finOfSans] at h
+      | val v => cases v <;> simp [hs, finOfSans] at h
+  rename_i hw
+  cases hws : wireSubject ids (canonFor (pidOf ids) c) with
+  | error e => cases e <;> simp [hws] at h
+  | ok p =>
+    obtain ⟨cn', org'⟩ := p
+    simp only [hws] at h
+    cases hs : sans ids (canonFor (pidOf ids) c) with
+    | crash => simp [hs, finOfSansWire] at h
+    | val v =>
+      cases v <;> simp [hs, finOfSansWire] at h
+      rename_i l'
+      obtain ⟨rfl, rfl, rfl⟩ := h
+      obtain ⟨tmp, htmp, ok⟩ := sans_ok _ _ _ hs
+      have spec := wireUris_mem ids tmp htmp
+      rw [canonFor_eq] at ok hws
+      obtain ⟨fe, fu, fc⟩ := canonB_fields (blankOf ids c) c
+      -- the subject loop: no identifier of another kind
+      unfold wireSubject at hws
+      cases hl : wireLoop (canonB (blankOf ids c) c) ids {} with
+      | error e => simp [hl] at hws
+      | ok st =>
+        simp only [hl] at hws
+        split at hws
+        · cases hws
+        rename_i hcnt
+        simp at hws
+        obtain ⟨rfl, rfl⟩ := hws
+        obtain ⟨hoth, hsub⟩ := wireLoop_spec _ ids {} st hl
+        have hnone : (ids.filter (fun i => !isWireId i)) = [] := by
+          have : st.others = 0 := by
+            by_cases e : st.others = 0
+            · exact e
+            · exact absurd (.inl (by omega)) hcnt
+          simp at hoth
+          rw [this] at hoth
+          exact List.eq_nil_of_length_eq_zero (by omega)
+        have hall : ∀ id ∈ ids, isWireId id = true := by
+          intro id hid
+          by_cases e : isWireId id = true
+          · exact e
+          · have : id ∈ ids.filter (fun i => !isWireId i) := List.mem_filter.mpr ⟨hid, by simpa using e⟩
+            rw [hnone] at this; cases this
+        -- hence no dns / ip identifiers: the order's name lists are empty
+        have hnd : valuesOf .dns ids = [] := by
+          simp [valuesOf, List.filter_eq_nil_iff]
+          intro id hid ht; have := hall id hid; simp [isWireId, ht] at this
+        have hni : ipsOf ids = [] := by
+          simp [ipsOf, List.filter_eq_nil_iff]
+          intro id hid ht; have := hall id hid; simp [isWireId, ht] at this
+        have hd0 : (canonB (blankOf ids c) c).dns = [] := by rw [ok.dns, hnd]; rfl
+        have hi0 : (canonB (blankOf ids c) c).ips = [] := by
+          have := ok.ips; rw [hni] at this
+          simpa [uniqueSortedIPs, sortU] using this
+        have hsu : ∀ u, u ∈ c.uriStrs ↔ u ∈ tmp := by
+          intro u
+          have e1 : (canonB (blankOf ids c) c).uriStrs = c.uriStrs := by cases blankOf ids c <;> simp [canonB, canonicalize]
+          rw [← sortU_mem u c.uriStrs, ← sortU_mem u tmp, ← e1, ok.uris]
+        refine ⟨tmp, htmp, spec, hg, hall, by rw [← fe]; exact ok.noEmail, by rw [← fu]; exact ok.uriCount, hsu, ?_, ?_, ?_, ?_⟩
+        · intro u; rw [ok.out, hd0, hi0]; simp [sortU_mem]
+        · intro x; rw [ok.out, hd0, hi0]; simp
+        · -- canonical DNS list empty: every CSR DNS name is empty; canonical IP list empty: no CSR IP
+          constructor
+          · simp only [List.all_eq_true]
+            intro n hn
+            by_cases e : n = []
+            · simp [e]
+            · exfalso
+              have : Str.lower n ∈ (canonB (blankOf ids c) c).dns :=
+                (canonB_dns_mem _ _ _).mpr ⟨by simpa [Str.lower] using e, .inl ⟨n, hn, rfl⟩⟩
+              rw [hd0] at this; cases this
+          · cases hc : c.ips with
+            | nil => rfl
+            | cons i is =>
+              exfalso
+              have : to16 i ∈ (canonB (blankOf ids c) c).ips :=
+                (canonB_ips_mem _ _ _).mpr (.inl ⟨i, by rw [hc]; simp, rfl⟩)
+              rw [hi0] at this; cases this
+        · rcases hsub with ⟨e1, e2⟩ | ⟨id, hid, ht, _, e1, e2, hscan, o, rest, horg, hfe⟩
+          · exact .inl ⟨e1, e2⟩
+          · right
+            obtain ⟨hallname, hne⟩ := scanDisplay_ok _ _ _ hscan
+            have ed : (canonB (blankOf ids c) c).displayNames = c.displayNames := by cases blankOf ids c <;> simp [canonB, canonicalize]
+            have eo : (canonB (blankOf ids c) c).orgs = c.orgs := by cases blankOf ids c <;> simp [canonB, canonicalize]
+            rw [ed] at hallname hne
+            rw [eo] at horg
+            refine ⟨id, hid, ht, e1, e2, by rw [e1]; exact hallname, ?_, o, rest, horg, by rw [e2]; exact hfe⟩
+            rcases hne with hne | hne
+            · exact hne
+            · cases hne
+
+/-- the hypothesis of `wire_names` is met by the ordinary Wire order -/
+example :
+    let user : Identifier := { typ := .wireUser, value := s "u", wire := { parsed := true, name := s "Alice", domain := s "wire.com", uri := some (s "wireapp://%40alice@wire.com") } }
+    let dev : Identifier := { typ := .wireDevice, value := s "d", wire := { parsed := true, name := s "Alice", domain := s "wire.com", uri := some (s "wireapp://a!b@wire.com") } }
+    finalizeNames [user, dev] [[], []] (some (s "k"))
+      { cn := [], cnIp := [], dns := [], ips := [], emails := 0, uriStrs := [s "wireapp://a!b@wire.com", s "wireapp://%40alice@wire.com"],
+        displayNames := [some (s "Alice")], orgs := [s "WIRE.com"] }
+    = .val (.acceptWire (s "Alice") (s "wire.com") [San.uri (s "wireapp://%40alice@wire.com"), San.uri (s "wireapp://a!b@wire.com")]) := by
+  decide
+
+/-- **wire_unwritten_slot** (found by the correspondence, low severity): when handle and client id of a
+    Wire order are the same URI and the CSR repeats it, the SAN list handed to the template has an
+    entry that was never written — the slice is sized by `len(csr.URIs)` before de-duplication —
+    and the issued certificate carries an empty DNS name. (Before /repo b009637 this case indexed
+    out of range.) -/
+theorem wire_unwritten_slot :
+    let user : Identifier := { typ := .wireUser, value := s "u", wire := { parsed := true, name := s "A", domain := s "w", uri := some (s "wireapp://x") } }
+    let dev : Identifier := { typ := .wireDevice, value := s "d", wire := { parsed := true, name := s "A", domain := s "w", uri := some (s "wireapp://x") } }
+    finalizeNames [user, dev] [[], []] (some (s "k"))
+      { cn := [], cnIp := [], dns := [], ips := [], emails := 0, uriStrs := [s "wireapp://x", s "wireapp://x"],
+        displayNames := [some (s "A")], orgs := [s "w"] }
+    = .val (.acceptWire (s "A") (s "w") [San.uri (s "wireapp://x"), San.empty]) := by
+  decide
+
+/-- with pairwise different order URIs no slot stays unwritten -/
+theorem wire_no_empty_slot (ids : List Identifier) (azFps : List Str) (csrFp : Option Str) (c : Csr)
+    (cn org : Str) (l : List San) (tmp : List Str)
+    (h : finalizeNames ids azFps csrFp c = .val (.acceptWire cn org l))
+    (htmp : wireUris ids = some tmp) (hnd : (sortU tmp).length = tmp.length) : San.empty ∉ l := by
+  unfold finalizeNames at h
+  simp only at h
+  repeat' split at h
+  all_goals try cases h
+  all_goals
+    first
+    | (rename_i hws
+       cases hs : sans ids (canonFor (pidOf ids) c) with
+       | crash => simp [hs, finOfSansWire] at h
+       | val v =>
+         cases v <;> simp [hs, finOfSansWire] at h
+         obtain ⟨tmp', htmp', ok⟩ := sans_ok _ _ _ hs
+         rw [htmp] at htmp'; cases htmp'
+         rw [← h.2.2, ok.out, ok.uriCount, hnd]
+         simp)
+    | (cases hs : sans ids (canonFor (pidOf ids) c) with
+       | crash => simp [hs, finOfSans, finOfSansAttested] at h
+       | val v => cases v <;> simp [hs, finOfSans, finOfSansAttested] at h)
 
 end Verif.AcmeSans
